@@ -422,6 +422,8 @@ class Channel:
                 off = np.cumsum([0] + [n for a, n in runs[:-1]]).astype(np.uint64)
                 ret = self.w.rf_write_blocks(arr, gl, off)
             ev.update(resp="ok", ret=int(ret))
+            # the harness's own idea of the next free index (not the writer's getter, which is under test)
+            self.sess["hnext"] = runs[-1][0] + runs[-1][1] - st
         except Exception as e:
             ev.update(resp="err", ret=-1, exc=type(e).__name__)
         ev.update(self.getters())
@@ -436,6 +438,8 @@ class Channel:
         st = self.sess["start"]
         g = self.getters()
         nxt = g["next"]
+        if kind == "past":
+            nxt = max(nxt, self.sess.get("hnext", 0))
         d = self.sess["d"]
         before = self.tree_hash(d)
         cc = self.cc
